@@ -216,9 +216,10 @@ theorem exprErr2_succ (L : Laws2 D) (LE : ErrLaws2 D) {n : Nat} (iht : ExprOKT D
   | char ch => exact absurd (quoteVal_atom_err (d := .char ch) (.inl rfl) hev) hcs
   | num m => exact absurd (quoteVal_atom_err (d := .num m) (.inr ⟨m, rfl⟩) hev) hcs
   | str t => exact absurd (quoteVal_atom_err (d := .str t) (.inl rfl) hev) hcs
-  | quote d rest hd =>
+  | quote d rest =>
     rw [evalStep_quote] at hev
-    exact absurd (quoteVal_atom_err hd hev) hcs
+    exact absurd ((quoteVal_err_syntax d).1 _ _ _ hev) hcs
+  | vecc e0 => exact absurd ((quoteVal_err_syntax (.vec e0)).1 _ _ _ hev) hcs
   | sym x hsc => exact err2_sym L hsc hcx hcomp hev hcs hc hip hi her hw hfrm
   | setBang x e hsc hG hfe => exact err2_setBang L ih ihe hsc hG hfe hcx hcomp hpre hev hcs hc hip hi her hw hfrm
   | if2 t cn hft hfc => exact err2_if2 L ih ihe ihet hft hfc hcx hcomp hpre hev hcs hc hip hi her hw hfrm
